@@ -12,6 +12,7 @@ import Gedcom.Lemmas.DiffPair
 import Gedcom.Lemmas.DiffGuard
 import Gedcom.Lemmas.StableSort
 import Gedcom.Generated.DiffSrc
+import Gedcom.Lemmas.DateGuard
 namespace Gedcom.C08
 open Gedcom Diff
 
@@ -551,6 +552,75 @@ theorem equivLevels_of_plain (l r : INode)
     simp only [Bool.and_eq_true, beq_iff_eq]
     rintro ⟨⟨h1, h2⟩, h3⟩ ⟨⟨k1, k2⟩, k3⟩
     exact ⟨⟨h1.trans k1, h2.trans k2⟩, h3.trans k3⟩
+
+/-- descendants of a tree that satisfies C07's guard satisfy it -/
+theorem okNode_at {D : List Str} {l a : INode} {d : Nat} (h : INode.At l d a)
+    (hok : okNode D l.erase = true) : okNode D a.erase = true := by
+  induction h with
+  | root n => exact hok
+  | @kid i t v p ks k d x hk _ ih =>
+    apply ih
+    apply okNode_kid hok
+    simp only [INode.erase, Node.kids, eraseList_eq_map]
+    exact List.mem_map_of_mem hk
+
+/-- **The guard beyond plain nodes (round 4)**: it holds for every pair of trees — any node kinds:
+    BIRT / DEAT / BURI / BAPM, DATE, `_UID`, RESI, EVEN — provided `DateNode.Equals` is an
+    equivalence on the DATE values present (C07's guard `dateEquiv` / `okNode`, which
+    `C07.guard_of_plain` gives for all values without a before / after constraint) and the RESI /
+    EVEN nodes are undated, i.e. compared through their children (PLAC children / value and all
+    children).  Dated RESI / EVEN siblings are what the counterexample below uses. -/
+theorem equivLevels_of_undated (D : List Str) (hD : dateEquiv D = true) (l r : INode)
+    (hl : okNode D l.erase = true) (hr : okNode D r.erase = true)
+    (ul : ∀ d a, INode.At l d a → a.erase.rule = .resi ∨ a.erase.rule = .even → a.erase.dates = [])
+    (ur : ∀ d a, INode.At r d a → a.erase.rule = .resi ∨ a.erase.rule = .even → a.erase.dates = []) :
+    EquivLevels l r := by
+  intro d a b c ha hb hc
+  have oka : okNode D a.erase = true := by
+    rcases ha with h | h; exact okNode_at h hl; exact okNode_at h hr
+  have okb : okNode D b.erase = true := by
+    rcases hb with h | h; exact okNode_at h hl; exact okNode_at h hr
+  have okc : okNode D c.erase = true := by
+    rcases hc with h | h; exact okNode_at h hl; exact okNode_at h hr
+  have ub : b.erase.rule = .resi ∨ b.erase.rule = .even → b.erase.dates = [] := by
+    rcases hb with h | h; exact ul _ _ h; exact ur _ _ h
+  refine ⟨?_, ?_, ?_⟩
+  · unfold iequals
+    rw [equalsShallow_eq]
+    exact equalsSpec_refl _ (fun k _ => deepEqual_refl k)
+  · intro h
+    unfold iequals at h ⊢
+    rw [equalsShallow_eq] at h ⊢
+    exact equalsSpec_symm_of_ok D hD _ _ oka okb h
+  · intro h1 h2
+    unfold iequals at h1 h2 ⊢
+    rw [equalsShallow_eq] at h1 h2 ⊢
+    refine equalsSpec_trans_undated D hD _ _ _ oka okb okc ?_ h1 h2
+    intro hra
+    apply ub
+    rw [equalsSpec_rule h1]
+    exact hra
+
+/-- … hence a tree and any deep-equal tree (for example a re-ordered copy) with undated RESI / EVEN
+    nodes and DATE values on which `DateNode.Equals` is an equivalence give an all-two-sided diff. -/
+theorem deepEqual_all_two_sided_undated (D : List Str) (hD : dateEquiv D = true) (l r : INode)
+    (hde : deepEqual l.erase r.erase = true)
+    (hl : okNode D l.erase = true) (hr : okNode D r.erase = true)
+    (ul : ∀ d a, INode.At l d a → a.erase.rule = .resi ∨ a.erase.rule = .even → a.erase.dates = [])
+    (ur : ∀ d a, INode.At r d a → a.erase.rule = .resi ∨ a.erase.rule = .even → a.erase.dates = []) :
+    (compareNodes l r).isDeepEqual = true :=
+  deepEqual_all_two_sided_partial l r hde (equivLevels_of_undated D hD l r hl hr ul ur)
+
+/-- undated RESI siblings with permuted PLAC children: deep-equal, and the diff says so -/
+example :
+    let a : INode := (labelNode 0 (.mk (lit "INDI") [] (lit "P1") [
+      .mk (lit "RESI") [] [] [.mk (lit "PLAC") (lit "a") [] [], .mk (lit "PLAC") (lit "b") [] []],
+      .mk (lit "RESI") [] [] [.mk (lit "PLAC") (lit "c") [] []]])).1
+    let b : INode := (labelNode 100 (.mk (lit "INDI") [] (lit "P1") [
+      .mk (lit "RESI") [] [] [.mk (lit "PLAC") (lit "c") [] []],
+      .mk (lit "RESI") [] [] [.mk (lit "PLAC") (lit "b") [] [], .mk (lit "PLAC") (lit "a") [] []]])).1
+    deepEqual a.erase b.erase = true ∧ (compareNodes a b).isDeepEqual = true ∧
+      okNode [] a.erase = true ∧ dateEquiv [] = true := by decide +kernel
 
 /-- **The guard is decidable by the model**: when the executable check `equivLevelsB` (the driver
     answers it for every generated case) says yes, the guard holds. -/
